@@ -24,7 +24,7 @@ Theorem cap_copy fuel strict w dsid off src w' :
   (forall i, 0 <= i -> i <> dsid -> get_seg (w_dst w') i = get_seg (w_dst w) i) /\
   zlen (mem (w_dst w') dsid) = zlen (mem (w_dst w) dsid).
 Proof.
-  intros Hd Hv Hk Hc Hl. cbn [write_ptr]. rewrite Hv, Hk. cbn [negb is_src]. unfold lift0.
+  intros Hd Hv Hk Hc Hl. unfold write_ptr. cbn [write_ptr_gen]. rewrite Hv, Hk. cbn [negb is_src]. unfold lift0.
   set (m := w_dst w) in *.
   set (m1 := mkBM (bm_arena m) (bm_segs m) (bm_caps m ++ [p_len src]) (bm_rl m)).
   assert (Hcz := zlen_nonneg (bm_caps m)).
@@ -47,7 +47,7 @@ Theorem cap_same_message fuel strict w dsid off src w' :
   write_ptr (S fuel) strict w dsid off InDst src false = Ok w' ->
   bm_caps (w_dst w') = bm_caps (w_dst w).
 Proof.
-  intros Hv Hk. cbn [write_ptr]. rewrite Hv, Hk. cbn [negb is_src]. unfold lift0.
+  intros Hv Hk. unfold write_ptr. cbn [write_ptr_gen]. rewrite Hv, Hk. cbn [negb is_src]. unfold lift0.
   destruct (writeRawPointer (w_dst w) dsid off _) as [m2| |] eqn:EW; cbn [bind]; try discriminate.
   intros H. apply Ok_inj in H. subst w'. cbn [w_dst w_set_dst].
   unfold writeRawPointer, seg_write in EW.
@@ -137,7 +137,7 @@ Lemma copy_struct_starts_with_data fuel strict w dst l src w' :
   copy_struct (S fuel) strict w dst l src = Ok w' ->
   exists w1, copy_data_phase w dst l src = Ok w1.
 Proof.
-  intros Hvd Hvs. cbn [copy_struct]. rewrite Hvd, Hvs. cbn [negb]. unfold copy_data_phase.
+  intros Hvd Hvs. unfold copy_struct. cbn [copy_struct_gen]. rewrite Hvd, Hvs. cbn [negb]. unfold copy_data_phase.
   destruct (slice _ (p_off src) _) as [sd| |]; cbn [bind]; try discriminate.
   destruct (slice _ (p_off dst) _) as [dd| |]; cbn [bind]; try discriminate.
   cbv zeta. destruct (lift0 w _) as [w1| |]; cbn [bind]; try discriminate.
@@ -255,13 +255,13 @@ Proof.
   set (new := resize_data _ (Z.to_nat dsz)) in *.
   assert (Ln : zlen new = dsz) by (unfold zlen, new; rewrite resize_data_length; lia).
   (* unfold copy_struct along the same path *)
-  cbn [copy_struct] in H. rewrite Hvd, Hvs in H. cbn [negb] in H.
+  unfold copy_struct in H. cbn [copy_struct_gen] in H. rewrite Hvd, Hvs in H. cbn [negb] in H.
   unfold copy_data_phase in E1.
   destruct (slice _ (p_off src) _) as [sd| |]; cbn [bind] in H, E1; try discriminate.
   destruct (slice _ (p_off dst) _) as [dd| |]; cbn [bind] in H, E1; try discriminate.
   cbv zeta in E1. rewrite E1 in H. cbn [bind] in H.
   match type of H with bind ?X _ = _ => destruct X as [w2| |] eqn:E2; cbn [bind] in H; try discriminate end.
-  destruct (frame_all fuel) as [Pwp _].
+  destruct (frame_all true fuel) as [Pwp _].
   (* state invariant shared by both loops *)
   set (I := fun wa : world =>
               G m (w_src w) wa (Rexact dst) /\
